@@ -1,17 +1,35 @@
-//! C12 — histories of job events on the real `yash_env::job::JobList`.
+//! C12 — the job table over histories of job events.
 //!
-//! For every history the observations made through the public API after each
-//! operation are written next to the operation; Coq replays the history on the
-//! model (`Yv.C12.Model.step`) and evaluates the invariant oracle on the
+//! Stream A (`CApi`): histories of operations on the real
+//! `yash_env::job::JobList`.  After each operation the observations made
+//! through the public API (iter, current_job, previous_job, find_by_pid, and
+//! `job::id::parse_tail(..).find(..)` for a list of job-ID texts) are written
+//! next to the operation; Coq replays the history on the model
+//! (`Yv.C12.Model.step`) and evaluates the invariant oracle on the
 //! implementation's observations.
+//!
+//! Stream S (`CScript`): whole scripts on the simulated OS under `set -m` with
+//! a stub terminal: asynchronous lists (`work N S &`), `jobs`, `jobs %ID`,
+//! `wait %ID`, `wait`, `kill -s SIG %ID`, `bg`, `fg`, `work N` (virtual time
+//! passes).  After each command the `snap` built-in reads the real `env.jobs`
+//! (the same observation as in stream A), `$?`, `$!`, `last_async_pid()` and
+//! the state of every child process in the simulated OS; the output of the
+//! built-ins is cut out of the shell's standard output and parsed.
 
-use yash_env::job::id::parse as parse_job_id;
+use std::cell::RefCell;
+use std::collections::BTreeMap;
+use std::time::Duration;
+use yash_env::builtin::{Builtin, Type};
+use yash_env::job::id::{FindError, JobId, parse_tail};
 use yash_env::job::{Job, JobList, Pid, ProcessResult, ProcessState};
-use yash_env::semantics::ExitStatus;
+use yash_env::semantics::{ExitStatus, Field};
 use yash_env::signal;
+use yash_env::system::concurrency::Sleep as _;
+use yash_env::variable::Scope;
 use yv_harness::cli::Args;
 use yv_harness::out::CasesWriter;
 use yv_harness::rng::Rng;
+use yv_harness::vsh::{BuiltinFuture, RunOpts, State, VEnv, run_shell};
 use yv_harness::{coq, json_str};
 
 #[derive(Clone, Copy, Debug, PartialEq)]
@@ -62,11 +80,116 @@ impl St {
             St::Signaled(n, c) => format!("sig{n}{}", if c { "c" } else { "" }),
         }
     }
+    fn alive(self) -> bool {
+        matches!(self, St::Running | St::Stopped(_))
+    }
 }
+
+/// Printer of job names (kept as a type so that sharing can be reintroduced;
+/// `let`-bound sub-terms made the case files slower to type-check, not faster).
+#[derive(Default)]
+struct Interner;
+
+impl Interner {
+    fn name(&mut self, s: &str) -> String {
+        coq::s(s)
+    }
+    fn wrap(&self, body: &str) -> String {
+        format!("({body})")
+    }
+}
+
+fn jobid_coq(id: &JobId) -> String {
+    match id {
+        JobId::CurrentJob => "IdCurrent".into(),
+        JobId::PreviousJob => "IdPrevious".into(),
+        JobId::JobNumber(n) => format!("(IdNumber {}%N)", n.get()),
+        JobId::NamePrefix(p) => format!("(IdPrefix {})", coq::s(p)),
+        JobId::NameSubstring(p) => format!("(IdSubstr {})", coq::s(p)),
+    }
+}
+
+fn fres_coq(r: Result<usize, FindError>) -> String {
+    match r {
+        Ok(i) => format!("(Found {})", coq::nat(i)),
+        Err(FindError::NotFound) => "NotFound".into(),
+        Err(FindError::Ambiguous) => "Ambiguous".into(),
+    }
+}
+
+fn fres_show(r: Result<usize, FindError>) -> String {
+    match r {
+        Ok(i) => format!("{i}"),
+        Err(FindError::NotFound) => "none".into(),
+        Err(FindError::Ambiguous) => "ambiguous".into(),
+    }
+}
+
+/// The observation of a `JobList` through its public API: the Coq term of type
+/// `obs` and a text for humans.
+fn observe(list: &JobList, pids: &[i32], ids: &[String], names: &mut Interner) -> (String, String) {
+    let jobs: Vec<String> = list
+        .iter()
+        .map(|(i, j)| {
+            format!(
+                "(jv {} {} {} {} {} {})",
+                coq::nat(i),
+                coq::z(j.pid.0 as i128),
+                St::of_real(j.state).coq(),
+                coq::b(j.state_changed),
+                coq::b(j.is_owned),
+                names.name(&j.name)
+            )
+        })
+        .collect();
+    let find: Vec<String> = pids
+        .iter()
+        .map(|p| {
+            format!(
+                "(fz {} {})",
+                coq::z(*p as i128),
+                coq::opt(list.find_by_pid(Pid(*p)).map(coq::nat))
+            )
+        })
+        .collect();
+    let mut shown_ids = vec![];
+    let idl: Vec<String> = ids
+        .iter()
+        .map(|t| {
+            let id = parse_tail(t);
+            let r = id.find(list);
+            shown_ids.push(format!("%{}={}", t, fres_show(r)));
+            format!("(ir {} {} {})", coq::s(t), jobid_coq(&id), fres_coq(r))
+        })
+        .collect();
+    let term = format!(
+        "(mkObs {} {} {} {} {})",
+        coq::list(&jobs),
+        coq::opt(list.current_job().map(coq::nat)),
+        coq::opt(list.previous_job().map(coq::nat)),
+        coq::list(&find),
+        coq::list(&idl)
+    );
+    let shown: Vec<String> = list
+        .iter()
+        .map(|(i, j)| format!("{}:{}:{}:{:?}", i, j.pid.0, St::of_real(j.state).show(), j.name))
+        .collect();
+    let human = format!(
+        "[{}] cur={:?} prev={:?} {}",
+        shown.join(" "),
+        list.current_job(),
+        list.previous_job(),
+        shown_ids.join(" ")
+    );
+    (term, human)
+}
+
+// ===========================================================================
+// Stream A: the JobList API
 
 #[derive(Clone, Debug)]
 enum Op {
-    Insert(i32, St),
+    Insert(i32, St, String),
     Remove(usize),
     RemoveIdxs(Vec<usize>),
     RemoveFinished,
@@ -78,9 +201,11 @@ enum Op {
 }
 
 impl Op {
-    fn coq(&self) -> String {
+    fn coq(&self, names: &mut Interner) -> String {
         match self {
-            Op::Insert(p, s) => format!("(OInsert {} {})", coq::z(*p as i128), s.coq()),
+            Op::Insert(p, s, n) => {
+                format!("(OInsert {} {} {})", coq::z(*p as i128), s.coq(), names.name(n))
+            }
             Op::Remove(i) => format!("(ORemove {})", coq::nat(*i)),
             Op::RemoveIdxs(l) => {
                 let v: Vec<String> = l.iter().map(|i| coq::nat(*i)).collect();
@@ -98,7 +223,7 @@ impl Op {
     }
     fn show(&self) -> String {
         match self {
-            Op::Insert(p, s) => format!("insert({p},{})", s.show()),
+            Op::Insert(p, s, n) => format!("insert({p},{},{n:?})", s.show()),
             Op::Remove(i) => format!("remove({i})"),
             Op::RemoveIdxs(l) => format!("remove_if(idx in {l:?})"),
             Op::RemoveFinished => "remove_if(finished)".into(),
@@ -113,9 +238,10 @@ impl Op {
 
 fn apply(list: &mut JobList, op: &Op) {
     match op {
-        Op::Insert(p, s) => {
+        Op::Insert(p, s, n) => {
             let mut job = Job::new(Pid(*p));
             job.state = s.to_real();
+            job.name = n.clone();
             list.insert(job);
         }
         Op::Remove(i) => {
@@ -143,53 +269,54 @@ fn apply(list: &mut JobList, op: &Op) {
     }
 }
 
-const IDS: [&str; 8] = ["%+", "%-", "%1", "%2", "%3", "%4", "%5", "%6"];
+const NAMES: [&str; 14] = [
+    "work 5 0",
+    "work 5 7",
+    "work 3",
+    "sleep 10",
+    "sleep 100",
+    "cat foo | grep bar",
+    "cat",
+    "",
+    "echo é→x",
+    "x",
+    "7",
+    "?",
+    "%1",
+    "work 5 0",
+];
 
-fn observe(list: &JobList, pids: &[i32]) -> (String, String) {
-    let jobs: Vec<String> = list
-        .iter()
-        .map(|(i, j)| {
-            format!(
-                "({}, ({}, {}, {}, {}))",
-                coq::nat(i),
-                coq::z(j.pid.0 as i128),
-                St::of_real(j.state).coq(),
-                coq::b(j.state_changed),
-                coq::b(j.is_owned)
-            )
-        })
-        .collect();
-    let find: Vec<String> = pids
-        .iter()
-        .map(|p| {
-            format!(
-                "({}, {})",
-                coq::z(*p as i128),
-                coq::opt(list.find_by_pid(Pid(*p)).map(coq::nat))
-            )
-        })
-        .collect();
-    let ids: Vec<String> = IDS
-        .iter()
-        .map(|id| coq::opt(parse_job_id(id).unwrap().find(list).ok().map(coq::nat)))
-        .collect();
-    let term = format!(
-        "(mkObs {} {} {} {} {})",
-        coq::list(&jobs),
-        coq::opt(list.current_job().map(coq::nat)),
-        coq::opt(list.previous_job().map(coq::nat)),
-        coq::list(&find),
-        coq::list(&ids)
-    );
-    let shown: Vec<String> =
-        list.iter().map(|(i, j)| format!("{}:{}:{}", i, j.pid.0, St::of_real(j.state).show())).collect();
-    let human = format!(
-        "[{}] cur={:?} prev={:?}",
-        shown.join(" "),
-        list.current_job(),
-        list.previous_job()
-    );
-    (term, human)
+/// Job-ID texts (after the '%') always asked.
+const CORE_IDS: [&str; 4] = ["+", "-", "%", ""];
+/// Numbers: in and beyond the table, with a sign, with leading zeros, zero,
+/// at and over the limit of usize.
+const NUM_IDS: [&str; 20] = [
+    "1", "2", "3", "4", "5", "6", "7", "8", "9", "10", "12", "+2", "+3", "007", "0", "+0", "00",
+    "18446744073709551615", "18446744073709551616", "99999999999999999999999999",
+];
+const NAME_IDS: [&str; 26] = [
+    "w", "work", "work 5", "work 5 0", "work 5 7", "work 3", "s", "sleep", "sleep 10", "sleep 100",
+    "cat", "c", "x", "?", "?o", "?5", "? ", "?work", "?10", "?é", "?→x", "?|", "??", "?%1", "?7",
+    "echo é",
+];
+const ODD_IDS: [&str; 12] = ["-1", "1x", "++1", "5+", "+-", "--", "%%", "%1", "é", " 1", "1 ", "+ 1"];
+
+fn pick_ids(rng: &mut Rng) -> Vec<String> {
+    let mut v: Vec<String> = CORE_IDS.iter().map(|s| s.to_string()).collect();
+    for _ in 0..3 {
+        v.push(rng.pick(&NUM_IDS).to_string());
+    }
+    // numbers within a small table, so that gaps are hit
+    v.push(format!("{}", 1 + rng.below(5)));
+    for _ in 0..3 {
+        v.push(rng.pick(&NAME_IDS).to_string());
+    }
+    if rng.chance(1, 2) {
+        v.push(rng.pick(&ODD_IDS).to_string());
+    }
+    v.sort();
+    v.dedup();
+    v
 }
 
 fn random_state(rng: &mut Rng) -> St {
@@ -214,7 +341,7 @@ fn random_op(rng: &mut Rng, list: &JobList, pids: &[i32]) -> Op {
                         continue;
                     }
                 }
-                return Op::Insert(p, random_state(rng));
+                return Op::Insert(p, random_state(rng), rng.pick(&NAMES).to_string());
             }
             35..=59 => return Op::Update(*rng.pick(pids), random_state(rng)),
             60..=71 => return Op::Remove(rng.below(max_idx)),
@@ -235,16 +362,17 @@ fn random_op(rng: &mut Rng, list: &JobList, pids: &[i32]) -> Op {
     }
 }
 
-fn emit(w: &mut CasesWriter, pids: &[i32], ops: &[Op]) {
+fn emit(w: &mut CasesWriter, pids: &[i32], ids: &[String], ops: &[Op]) {
     let mut list = JobList::new();
+    let mut names = Interner::default();
     let mut hist = vec![];
     let mut human = vec![];
     let mut max_jobs = 0;
     let mut max_susp = 0;
     for op in ops {
         apply(&mut list, op);
-        let (term, h) = observe(&list, pids);
-        hist.push(format!("({}, {})", op.coq(), term));
+        let (term, h) = observe(&list, pids, ids, &mut names);
+        hist.push(format!("({}, {})", op.coq(&mut names), term));
         human.push(format!("{} -> {}", op.show(), h));
         max_jobs = max_jobs.max(list.len());
         max_susp = max_susp.max(list.iter().filter(|(_, j)| j.state.is_stopped()).count());
@@ -257,14 +385,42 @@ fn emit(w: &mut CasesWriter, pids: &[i32], ops: &[Op]) {
             Op::DisownAll => "op:disown_all",
             Op::Expect(..) | Op::Reported(..) => "op:job_ref_mut",
         });
+        // distribution of the job-ID resolutions asked
+        let gap = {
+            let idxs: Vec<usize> = list.iter().map(|(i, _)| i).collect();
+            idxs.last().is_some_and(|m| idxs.len() <= *m)
+        };
+        for t in ids {
+            let id = parse_tail(t);
+            let kind = match id {
+                JobId::CurrentJob => "current",
+                JobId::PreviousJob => "previous",
+                JobId::JobNumber(_) => {
+                    if gap {
+                        "number(table has a gap)"
+                    } else {
+                        "number"
+                    }
+                }
+                JobId::NamePrefix(_) => "prefix",
+                JobId::NameSubstring(_) => "substring",
+            };
+            w.count(&format!("id:{kind}:{}", match id.find(&list) {
+                Ok(_) => "found",
+                Err(FindError::NotFound) => "notfound",
+                Err(FindError::Ambiguous) => "ambiguous",
+            }));
+        }
     }
     w.count(&format!("max_jobs:{max_jobs}"));
     w.count(&format!("max_suspended:{max_susp}"));
     let pidl: Vec<String> = pids.iter().map(|p| coq::z(*p as i128)).collect();
-    let term = format!("({}, {})", coq::list(&pidl), coq::list(&hist));
+    let idl: Vec<String> = ids.iter().map(|t| coq::s(t)).collect();
+    let term = names.wrap(&format!("CApi {} {} {}", coq::list(&pidl), coq::list(&idl), coq::list(&hist)));
     let json = format!(
-        "{{\"pids\":{:?},\"history\":[{}]}}",
+        "{{\"stream\":\"api\",\"pids\":{:?},\"ids\":{},\"history\":[{}]}}",
         pids,
+        yv_harness::json_str_list(ids),
         human.iter().map(|h| json_str(h)).collect::<Vec<_>>().join(",")
     );
     // non-trivial: at least two jobs coexisted and one was suspended
@@ -276,45 +432,759 @@ fn emit(w: &mut CasesWriter, pids: &[i32], ops: &[Op]) {
     w.push(&term, &json, &[], key);
 }
 
+// ===========================================================================
+// Stream S: scripts on the simulated OS
+
+#[derive(Clone, Copy, Debug, PartialEq)]
+enum Sig {
+    Stop,
+    Cont,
+    Term,
+    Kill,
+}
+
+impl Sig {
+    fn name(self) -> &'static str {
+        match self {
+            Sig::Stop => "STOP",
+            Sig::Cont => "CONT",
+            Sig::Term => "TERM",
+            Sig::Kill => "KILL",
+        }
+    }
+    fn coq(self) -> &'static str {
+        match self {
+            Sig::Stop => "KStop",
+            Sig::Cont => "KCont",
+            Sig::Term => "KTerm",
+            Sig::Kill => "KKill",
+        }
+    }
+}
+
+/// One command of a script.  A job-ID operand is the text after the '%';
+/// `None` = the command is written without an operand (= the current job).
+#[derive(Clone, Debug, PartialEq)]
+enum Cmd {
+    Async { text: String, status: i32 },
+    Jobs,
+    JobsId(String),
+    Wait(String),
+    WaitAll,
+    Kill(Sig, String),
+    Bg(Option<String>),
+    Fg(Option<String>),
+    Sleep(u32),
+}
+
+fn operand(t: &str) -> String {
+    format!("'%{t}'")
+}
+
+impl Cmd {
+    fn render(&self) -> String {
+        match self {
+            Cmd::Async { text, .. } => format!("{text} &"),
+            Cmd::Jobs => "jobs".into(),
+            Cmd::JobsId(t) => format!("jobs {}", operand(t)),
+            Cmd::Wait(t) => format!("wait {}", operand(t)),
+            Cmd::WaitAll => "wait".into(),
+            Cmd::Kill(s, t) => format!("kill -s {} {}", s.name(), operand(t)),
+            Cmd::Bg(None) => "bg".into(),
+            Cmd::Bg(Some(t)) => format!("bg {}", operand(t)),
+            Cmd::Fg(None) => "fg".into(),
+            Cmd::Fg(Some(t)) => format!("fg {}", operand(t)),
+            Cmd::Sleep(n) => format!("work {n}"),
+        }
+    }
+    fn tail(&self) -> Option<String> {
+        match self {
+            Cmd::JobsId(t) | Cmd::Wait(t) | Cmd::Kill(_, t) => Some(t.clone()),
+            Cmd::Bg(t) | Cmd::Fg(t) => Some(t.clone().unwrap_or_default()),
+            _ => None,
+        }
+    }
+    fn kind(&self) -> &'static str {
+        match self {
+            Cmd::Async { .. } => "async",
+            Cmd::Jobs => "jobs",
+            Cmd::JobsId(_) => "jobs %ID",
+            Cmd::Wait(_) => "wait %ID",
+            Cmd::WaitAll => "wait",
+            Cmd::Kill(Sig::Stop, _) => "kill -s STOP %ID",
+            Cmd::Kill(Sig::Cont, _) => "kill -s CONT %ID",
+            Cmd::Kill(..) => "kill -s TERM/KILL %ID",
+            Cmd::Bg(_) => "bg",
+            Cmd::Fg(_) => "fg",
+            Cmd::Sleep(_) => "work N (time passes)",
+        }
+    }
+}
+
+#[allow(dead_code)]
+#[derive(Clone, Debug)]
+struct JobView {
+    index: usize,
+    pid: i32,
+    state: St,
+    changed: bool,
+    owned: bool,
+    name: String,
+}
+
+#[derive(Clone, Debug, Default)]
+struct Snap {
+    obs_term: String,
+    human: String,
+    jobs: Vec<JobView>,
+    last: i32,
+    bang: String,
+    status: String,
+    sys: Vec<(i32, St)>,
+    stdout_len: usize,
+    /// what each ID text resolved to (by the real find)
+    resolved: Vec<(String, String)>,
+}
+
+thread_local! {
+    static STATE: RefCell<Option<State>> = const { RefCell::new(None) };
+    static SNAPS: RefCell<Vec<Snap>> = const { RefCell::new(Vec::new()) };
+    static IDS: RefCell<Vec<String>> = const { RefCell::new(Vec::new()) };
+    static NAMES_I: RefCell<Interner> = RefCell::new(Interner::default());
+    static GEN: RefCell<Option<Gen>> = const { RefCell::new(None) };
+}
+
+const SCRIPT_PIDS: std::ops::RangeInclusive<i32> = 2..=11;
+
+/// `work N [STATUS]`: sleeps N virtual milliseconds, returns STATUS.
+fn work_main(env: &mut VEnv, args: Vec<Field>) -> BuiltinFuture<'_> {
+    Box::pin(async move {
+        let n = args.first().and_then(|f| f.value.parse::<u32>().ok()).unwrap_or(1);
+        let st = args.get(1).and_then(|f| f.value.parse::<i32>().ok()).unwrap_or(0);
+        for _ in 0..n {
+            env.system.sleep(Duration::from_millis(1)).await;
+        }
+        ExitStatus(st).into()
+    })
+}
+
+fn sys_states(env: &VEnv) -> Vec<(i32, St)> {
+    STATE.with(|st| {
+        let st = st.borrow();
+        let st = st.as_ref().unwrap().borrow();
+        st.processes
+            .iter()
+            .filter(|(pid, _)| **pid != env.main_pid)
+            .map(|(pid, p)| (pid.0, St::of_real(p.state())))
+            .collect()
+    })
+}
+
+fn stdout_len() -> usize {
+    STATE.with(|st| {
+        let st = st.borrow();
+        yv_harness::vsh::read_file(st.as_ref().unwrap(), "/dev/stdout").map_or(0, |b| b.len())
+    })
+}
+
+/// `snap "$?" "$!"`: records the job list, `$?`, `$!` and the process table.
+fn snap_main(env: &mut VEnv, args: Vec<Field>) -> BuiltinFuture<'_> {
+    Box::pin(async move {
+        let status = env.exit_status;
+        let pids: Vec<i32> = SCRIPT_PIDS.collect();
+        let ids = IDS.with(|i| i.borrow().clone());
+        let (obs_term, human) =
+            NAMES_I.with(|n| observe(&env.jobs, &pids, &ids, &mut n.borrow_mut()));
+        let jobs = env
+            .jobs
+            .iter()
+            .map(|(i, j)| JobView {
+                index: i,
+                pid: j.pid.0,
+                state: St::of_real(j.state),
+                changed: j.state_changed,
+                owned: j.is_owned,
+                name: j.name.clone(),
+            })
+            .collect();
+        let snap = Snap {
+            obs_term,
+            human,
+            jobs,
+            last: env.jobs.last_async_pid().0,
+            status: args.first().map(|f| f.value.clone()).unwrap_or_default(),
+            bang: args.get(1).map(|f| f.value.clone()).unwrap_or_default(),
+            sys: sys_states(env),
+            stdout_len: stdout_len(),
+            resolved: ids.iter().map(|t| (t.clone(), fres_show(parse_tail(t).find(&env.jobs)))).collect(),
+        };
+        SNAPS.with(|v| v.borrow_mut().push(snap));
+        ExitStatus(status.0).into()
+    })
+}
+
+/// The generator of phase 1: chooses the next command from the real state.
+struct Gen {
+    rng: Rng,
+    plan: Vec<Cmd>,
+    /// (pid of the helper job, pid it will stop)
+    helpers: Vec<(i32, i32)>,
+    last_async_is_helper_for: Option<i32>,
+    /// more asynchronous jobs and `%N` after a lower-numbered job has gone
+    gaps: bool,
+}
+
+fn pick_tail(rng: &mut Rng, jobs: &JobList) -> String {
+    let idxs: Vec<usize> = jobs.iter().map(|(i, _)| i).collect();
+    let names: Vec<String> = jobs.iter().map(|(_, j)| j.name.clone()).collect();
+    let r = rng.below(100);
+    if r < 45 && !idxs.is_empty() {
+        return format!("{}", rng.pick(&idxs) + 1);
+    }
+    if r < 55 {
+        return format!("{}", 1 + rng.below(6));
+    }
+    if r < 72 {
+        return rng.pick(&["", "%", "+", "-", "-", "+"]).to_string();
+    }
+    if r < 86 && !names.is_empty() {
+        // a prefix of a job's name
+        let n: Vec<char> = rng.pick(&names).chars().collect();
+        let k = 1 + rng.below(n.len());
+        return n[..k].iter().collect();
+    }
+    if r < 96 && !names.is_empty() {
+        // a substring of a job's name
+        let n: Vec<char> = rng.pick(&names).chars().collect();
+        let a = rng.below(n.len());
+        let b = a + 1 + rng.below((n.len() - a).min(4));
+        return format!("?{}", n[a..b].iter().collect::<String>());
+    }
+    rng.pick(&["0", "+1", "+2", "01", "002", "?", "?zz", "nosuchjob", "9", "18446744073709551616"]).to_string()
+}
+
+fn choose(g: &mut Gen, env: &VEnv) -> Cmd {
+    let jobs = &env.jobs;
+    let n = jobs.len();
+    let sys: BTreeMap<i32, St> = sys_states(env).into_iter().collect();
+    // pids that a live helper is going to stop
+    let doomed: Vec<i32> = g
+        .helpers
+        .iter()
+        .filter(|(h, _)| sys.get(h).is_some_and(|s| s.alive()))
+        .map(|(_, t)| *t)
+        .collect();
+    let stopped = |pid: i32| matches!(sys.get(&pid), Some(St::Stopped(_)));
+    let rng = &mut g.rng;
+    for _ in 0..50 {
+        // mostly start with a few jobs
+        let r = if n < 2 && rng.chance(3, 5) { 0 } else { rng.below(100) };
+        let cmd = match r {
+            0..=27 => {
+                if n >= 4 && !(g.gaps && n < 6) {
+                    continue;
+                }
+                Cmd::Async {
+                    text: format!("work {} {}", 1 + rng.below(9), rng.below(10)),
+                    status: 0,
+                }
+            }
+            28..=30 => {
+                // a helper that stops a running job a little later
+                let live: Vec<i32> = jobs
+                    .iter()
+                    .filter(|(_, j)| !j.name.starts_with('{') && sys.get(&j.pid.0).is_some_and(|s| *s == St::Running))
+                    .map(|(_, j)| j.pid.0)
+                    .collect();
+                if live.is_empty() || n >= 5 {
+                    continue;
+                }
+                let t = *rng.pick(&live);
+                Cmd::Async { text: format!("{{ work {}; kill -s STOP {}; }}", 1 + rng.below(3), t), status: 0 }
+            }
+            31..=42 => Cmd::Jobs,
+            43..=48 => Cmd::JobsId(pick_tail(rng, jobs)),
+            49..=62 => {
+                let t = pick_tail(rng, jobs);
+                if let Ok(i) = parse_tail(&t).find(jobs) {
+                    let pid = jobs[i].pid.0;
+                    if stopped(pid) || doomed.contains(&pid) {
+                        continue;
+                    }
+                }
+                Cmd::Wait(t)
+            }
+            63..=64 => {
+                if jobs.iter().any(|(_, j)| stopped(j.pid.0) || doomed.contains(&j.pid.0)) {
+                    continue;
+                }
+                Cmd::WaitAll
+            }
+            65..=72 => Cmd::Kill(Sig::Stop, pick_tail(rng, jobs)),
+            73..=78 => Cmd::Kill(Sig::Cont, pick_tail(rng, jobs)),
+            79..=82 => Cmd::Kill(Sig::Term, pick_tail(rng, jobs)),
+            83 => Cmd::Kill(Sig::Kill, pick_tail(rng, jobs)),
+            84..=88 => {
+                if rng.chance(1, 4) {
+                    Cmd::Bg(None)
+                } else {
+                    Cmd::Bg(Some(pick_tail(rng, jobs)))
+                }
+            }
+            89..=93 => {
+                if rng.chance(1, 4) {
+                    Cmd::Fg(None)
+                } else {
+                    Cmd::Fg(Some(pick_tail(rng, jobs)))
+                }
+            }
+            _ => Cmd::Sleep(1 + rng.below(6) as u32),
+        };
+        return cmd;
+    }
+    Cmd::Jobs
+}
+
+/// `next`: phase 1 only.  Chooses the next command, appends it to the plan and
+/// assigns its text to `$CMD`.
+fn next_main(env: &mut VEnv, _args: Vec<Field>) -> BuiltinFuture<'_> {
+    Box::pin(async move {
+        let text = GEN.with(|g| {
+            let mut g = g.borrow_mut();
+            let g = g.as_mut().unwrap();
+            // the helper started by the previous command is known by `$!` now
+            if let Some(t) = g.last_async_is_helper_for.take() {
+                g.helpers.push((env.jobs.last_async_pid().0, t));
+            }
+            let mut cmd = choose(g, env);
+            if let Cmd::Async { text, status } = &mut cmd {
+                if let Some(rest) = text.strip_prefix("{ work ") {
+                    let t = rest.rsplit(' ').nth(1).and_then(|s| s.trim_end_matches(';').parse::<i32>().ok());
+                    g.last_async_is_helper_for = t;
+                    *status = 0;
+                } else {
+                    *status = text.rsplit(' ').next().and_then(|s| s.parse().ok()).unwrap_or(0);
+                }
+            }
+            let text = cmd.render();
+            g.plan.push(cmd);
+            text
+        });
+        env.variables.get_or_new("CMD", Scope::Global).assign(text, None).ok();
+        ExitStatus::SUCCESS.into()
+    })
+}
+
+fn run_on_vsh(script: &str) -> yv_harness::vsh::Outcome {
+    let (out, _) = run_shell(
+        RunOpts { argv: vec!["-c".into(), script.into()], ..Default::default() },
+        move |env, state| {
+            STATE.with(|s| *s.borrow_mut() = Some(state.clone()));
+            state.borrow_mut().now = Some(std::time::Instant::now());
+            yash_env::test_helper::stub_tty(state);
+            env.builtins.insert("snap", Builtin::new(Type::Mandatory, snap_main));
+            env.builtins.insert("work", Builtin::new(Type::Mandatory, work_main));
+            env.builtins.insert("next", Builtin::new(Type::Mandatory, next_main));
+        },
+    );
+    out
+}
+
+/// Phase 1: lets the generator choose `nsteps` commands while they run.
+fn plan_script(rng: Rng, nsteps: usize, gaps: bool, forced: &[Cmd]) -> Vec<Cmd> {
+    if !forced.is_empty() {
+        return forced.to_vec();
+    }
+    GEN.with(|g| {
+        *g.borrow_mut() =
+            Some(Gen { rng, plan: vec![], helpers: vec![], last_async_is_helper_for: None, gaps })
+    });
+    let mut script = String::from("set -m\n");
+    for _ in 0..nsteps {
+        script.push_str("next; eval \"$CMD\"\n");
+    }
+    IDS.with(|i| i.borrow_mut().clear());
+    let _ = run_on_vsh(&script);
+    // a deadlocked or aborted phase 1 still leaves the plan chosen so far
+    GEN.with(|g| g.borrow_mut().take().unwrap().plan)
+}
+
+fn flat_script(plan: &[Cmd]) -> String {
+    let mut s = String::from("set -m\nsnap \"$?\" \"$!\"\n");
+    for c in plan {
+        s.push_str(&c.render());
+        s.push_str("\nsnap \"$?\" \"$!\"\n");
+    }
+    s
+}
+
+#[derive(Debug)]
+enum LState {
+    Running,
+    Stopped,
+    Done(i32),
+    Killed(bool),
+}
+
+/// Parses `[N] M STATE                NAME`.
+fn parse_jobs_line(line: &str) -> Option<(u64, u8, LState, String)> {
+    let rest = line.strip_prefix('[')?;
+    let (num, rest) = rest.split_once("] ")?;
+    let num: u64 = num.parse().ok()?;
+    let mut chars = rest.chars();
+    let marker = match chars.next()? {
+        ' ' => 0,
+        '+' => 1,
+        '-' => 2,
+        _ => return None,
+    };
+    if chars.next()? != ' ' {
+        return None;
+    }
+    let rest = chars.as_str();
+    let (st, len) = if rest.starts_with("Running") {
+        (LState::Running, 7)
+    } else if let Some(r) = rest.strip_prefix("Done(") {
+        let (n, _) = r.split_once(')')?;
+        (LState::Done(n.parse().ok()?), 5 + n.len() + 1)
+    } else if rest.starts_with("Done") {
+        (LState::Done(0), 4)
+    } else if let Some(r) = rest.strip_prefix("Stopped(") {
+        let (n, _) = r.split_once(')')?;
+        (LState::Stopped, 8 + n.len() + 1)
+    } else if let Some(r) = rest.strip_prefix("Killed(") {
+        let (n, _) = r.split_once(')')?;
+        (LState::Killed(n.ends_with(": core dumped")), 7 + n.len() + 1)
+    } else {
+        return None;
+    };
+    // the state is padded to 20 columns and followed by one space
+    let skip = len.max(20) + 1;
+    let name = rest.get(skip..)?.to_string();
+    Some((num, marker, st, name))
+}
+
+fn lstate_coq(s: &LState) -> String {
+    match s {
+        LState::Running => "LRunning".into(),
+        LState::Stopped => "LStopped".into(),
+        LState::Done(n) => format!("(LDone {})", coq::n(*n as u64)),
+        LState::Killed(c) => format!("(LKilled {})", coq::b(*c)),
+    }
+}
+
+fn snap_coq(s: &Snap) -> Option<String> {
+    let status: u64 = s.status.parse().ok()?;
+    let bang = if s.bang.is_empty() { None } else { Some(coq::z(s.bang.parse::<i128>().ok()?)) };
+    let sys: Vec<String> =
+        s.sys.iter().map(|(p, st)| format!("(sz {} {})", coq::z(*p as i128), st.coq())).collect();
+    Some(format!(
+        "(mkSnap {} {} {} {} {})",
+        s.obs_term,
+        coq::z(s.last as i128),
+        coq::opt(bang),
+        coq::n(status),
+        coq::list(&sys)
+    ))
+}
+
+/// Phase 2: runs the flat script, cuts it into steps and writes the case.
+/// Returns false if the run was unusable.
+fn emit_script(w: &mut CasesWriter, plan: &[Cmd], tags: &[&str]) -> bool {
+    let script = flat_script(plan);
+    // the ID texts asked in every snapshot: a fixed core, the operands used,
+    // and a few texts derived from the commands of the script
+    let mut ids: Vec<String> =
+        ["", "%", "+", "-", "1", "2", "3", "4", "5", "work"].iter().map(|s| s.to_string()).collect();
+    for c in plan {
+        if let Some(t) = c.tail() {
+            ids.push(t);
+        }
+        if let Cmd::Async { text, .. } = c {
+            if text.starts_with("work") && ids.len() < 16 {
+                ids.push(text.clone());
+            }
+        }
+    }
+    ids.sort();
+    ids.dedup();
+    IDS.with(|i| *i.borrow_mut() = ids.clone());
+    SNAPS.with(|v| v.borrow_mut().clear());
+    NAMES_I.with(|n| *n.borrow_mut() = Interner::default());
+    let out = run_on_vsh(&script);
+    let snaps = SNAPS.with(|v| std::mem::take(&mut *v.borrow_mut()));
+    let mut names = NAMES_I.with(|n| std::mem::take(&mut *n.borrow_mut()));
+    if out.panicked.is_some() {
+        // a Rust panic in the shell is an implementation failure, not a usable run
+        w.count("script:panicked");
+        let term = "(CScript nil nil (mkSnap (mkObs nil None None nil nil) 0%Z None 0%N nil) \
+                    [(SAsync nil 0%N, mkSnap (mkObs nil None None nil nil) 0%Z None 1%N nil)])";
+        let json = format!(
+            "{{\"stream\":\"script\",\"script\":{},\"panic\":{}}}",
+            json_str(&script),
+            json_str(out.panicked.as_deref().unwrap_or(""))
+        );
+        w.push(term, &json, tags, None);
+        return true;
+    }
+    if snaps.is_empty() {
+        w.count("script:no-snapshot");
+        return false;
+    }
+    if out.deadlock || out.timeout {
+        w.count("script:truncated(deadlock)");
+    }
+    let nsteps = (snaps.len() - 1).min(plan.len());
+    let stdout = out.stdout.as_bytes();
+    let mut steps = vec![];
+    let mut human = vec![];
+    let mut max_jobs = 0;
+    let mut found_ops = 0;
+    let init = match snap_coq(&snaps[0]) {
+        Some(t) => t,
+        None => return false,
+    };
+    for k in 0..nsteps {
+        let (b, a) = (&snaps[k], &snaps[k + 1]);
+        let text = String::from_utf8_lossy(&stdout[b.stdout_len.min(stdout.len())..a.stdout_len.min(stdout.len())]).into_owned();
+        let lines: Vec<&str> = text.lines().collect();
+        let cmd = &plan[k];
+        w.count(&format!("cmd:{}", cmd.kind()));
+        max_jobs = max_jobs.max(a.jobs.len());
+        let jlines = |names: &mut Interner| -> Option<String> {
+            let mut v = vec![];
+            for l in &lines {
+                let (n, m, st, name) = parse_jobs_line(l)?;
+                v.push(format!("(jl {} {} {} {})", coq::n(n), coq::n(m as u64), lstate_coq(&st), names.name(&name)));
+            }
+            Some(coq::list(&v))
+        };
+        let tail_term = |t: &str| coq::s(t);
+        let term = match cmd {
+            Cmd::Async { text, status } => {
+                format!("(SAsync {} {})", names.name(text), coq::n(*status as u64))
+            }
+            Cmd::Jobs => match jlines(&mut names) {
+                Some(l) => format!("(SJobs {l})"),
+                None => {
+                    w.count("script:unparsed-jobs-output");
+                    return false;
+                }
+            },
+            Cmd::JobsId(t) => match jlines(&mut names) {
+                Some(l) => format!("(SJobsId {} {l})", tail_term(t)),
+                None => {
+                    w.count("script:unparsed-jobs-output");
+                    return false;
+                }
+            },
+            Cmd::Wait(t) => format!("(SWait {})", tail_term(t)),
+            Cmd::WaitAll => "SWaitAll".into(),
+            Cmd::Kill(s, t) => format!("(SKill {} {})", s.coq(), tail_term(t)),
+            Cmd::Bg(t) => {
+                let mut v = vec![];
+                for l in &lines {
+                    let parsed = l.strip_prefix('[').and_then(|r| r.split_once("] ")).and_then(|(n, name)| {
+                        n.parse::<u64>().ok().map(|n| (n, name.to_string()))
+                    });
+                    match parsed {
+                        Some((n, name)) => v.push(format!("(bl {} {})", coq::n(n), names.name(&name))),
+                        None => v.push(format!("(bl 0%N {})", names.name(l))),
+                    }
+                }
+                format!("(SBg {} {})", tail_term(t.as_deref().unwrap_or("")), coq::list(&v))
+            }
+            Cmd::Fg(t) => {
+                let v: Vec<String> = lines.iter().map(|l| names.name(l)).collect();
+                format!("(SFg {} {})", tail_term(t.as_deref().unwrap_or("")), coq::list(&v))
+            }
+            Cmd::Sleep(n) => format!("(SSleep {})", coq::n(*n as u64)),
+        };
+        // distribution: what the operand resolved to (by the real find, on the
+        // table as the snapshot before the command recorded it)
+        if let Some(t) = cmd.tail() {
+            let res = b
+                .resolved
+                .iter()
+                .find(|(x, _)| *x == t)
+                .map(|(_, r)| r.clone())
+                .unwrap_or_else(|| "?".into());
+            let cls = match res.as_str() {
+                "none" => "notfound",
+                "ambiguous" => "ambiguous",
+                _ => "found",
+            };
+            if cls == "found" {
+                found_ops += 1;
+            }
+            w.count(&format!("operand:{cls}"));
+            // %N used while a lower-numbered slot is vacant
+            if let Ok(n) = t.parse::<usize>() {
+                let idxs: Vec<usize> = b.jobs.iter().map(|j| j.index).collect();
+                if n >= 1 && idxs.contains(&(n - 1)) && (0..n - 1).any(|i| !idxs.contains(&i)) {
+                    w.count("operand:%N above a gap in the numbering");
+                }
+            }
+        }
+        let snap = match snap_coq(a) {
+            Some(s) => s,
+            None => return false,
+        };
+        steps.push(format!("({term}, {snap})"));
+        human.push(format!(
+            "{} => $?={} $!={} out={:?} jobs={} sys={:?}",
+            cmd.render(),
+            a.status,
+            a.bang,
+            text,
+            a.human,
+            a.sys.iter().map(|(p, s)| format!("{p}:{}", s.show())).collect::<Vec<_>>()
+        ));
+    }
+    w.count(&format!("script:max_jobs:{max_jobs}"));
+    let pidl: Vec<String> = SCRIPT_PIDS.map(|p| coq::z(p as i128)).collect();
+    let idl: Vec<String> = ids.iter().map(|t| coq::s(t)).collect();
+    let term = names.wrap(&format!(
+        "CScript {} {} {} {}",
+        coq::list(&pidl),
+        coq::list(&idl),
+        init,
+        coq::list(&steps)
+    ));
+    let shown: String = plan[..nsteps].iter().map(|c| c.render()).collect::<Vec<_>>().join("\n");
+    let json = format!(
+        "{{\"stream\":\"script\",\"script\":{},\"steps\":[{}],\"stderr\":{}}}",
+        json_str(&format!("set -m\n{shown}")),
+        human.iter().map(|h| json_str(h)).collect::<Vec<_>>().join(","),
+        json_str(&out.stderr)
+    );
+    // non-trivial: two jobs coexisted and a job-ID operand designated a job
+    let key = if max_jobs >= 2 && found_ops >= 1 { Some(shown) } else { None };
+    w.push(&term, &json, tags, key);
+    true
+}
+
+fn asy(d: u32, s: i32) -> Cmd {
+    Cmd::Async { text: format!("work {d} {s}"), status: s }
+}
+
+fn script_corpus() -> Vec<Vec<Cmd>> {
+    let t = |s: &str| s.to_string();
+    vec![
+        // %N after a lower-numbered job has gone: the numbers do not shift
+        vec![asy(2, 7), asy(6, 4), asy(9, 2), Cmd::Wait(t("1")), Cmd::Jobs, Cmd::Wait(t("3")), Cmd::Jobs, Cmd::Wait(t("2")), Cmd::Jobs],
+        vec![asy(2, 7), asy(6, 4), asy(9, 2), Cmd::Wait(t("1")), Cmd::Kill(Sig::Stop, t("2")), Cmd::Jobs, Cmd::Kill(Sig::Term, t("3")), Cmd::Jobs, Cmd::Kill(Sig::Cont, t("2")), Cmd::Wait(t("2"))],
+        vec![asy(1, 1), asy(5, 2), asy(7, 3), Cmd::Sleep(2), Cmd::Jobs, Cmd::Bg(Some(t("3"))), Cmd::Fg(Some(t("2"))), Cmd::JobsId(t("3")), asy(3, 5), Cmd::Jobs, Cmd::Wait(t("1")), Cmd::Wait(t("3"))],
+        // current / previous job and the markers of `jobs`
+        vec![asy(5, 7), asy(3, 4), asy(9, 2), Cmd::Kill(Sig::Stop, t("2")), Cmd::Jobs, Cmd::Kill(Sig::Stop, t("1")), Cmd::Jobs, Cmd::Bg(Some(t("2"))), Cmd::Jobs, Cmd::Wait(t("2")), Cmd::Fg(Some(t("1"))), Cmd::Jobs, Cmd::Kill(Sig::Term, t("3")), Cmd::Jobs],
+        vec![asy(5, 7), asy(3, 4), Cmd::Wait(t("+")), Cmd::Jobs, Cmd::Wait(t("-")), Cmd::Wait(t("%")), Cmd::Jobs],
+        vec![asy(4, 1), asy(4, 2), asy(4, 3), Cmd::Kill(Sig::Stop, t("-")), Cmd::Kill(Sig::Stop, t("-")), Cmd::Jobs, Cmd::Kill(Sig::Kill, t("+")), Cmd::Jobs, Cmd::Fg(None), Cmd::Bg(None), Cmd::Jobs, Cmd::WaitAll],
+        // names
+        vec![asy(5, 7), asy(3, 4), asy(5, 1), Cmd::Wait(t("work 3")), Cmd::Wait(t("work 5")), Cmd::Wait(t("?7")), Cmd::JobsId(t("w")), Cmd::JobsId(t("?5 1")), Cmd::Kill(Sig::Stop, t("?zz")), Cmd::WaitAll],
+        // a helper stops the job that `fg` put in the foreground
+        vec![asy(9, 7), Cmd::Async { text: t("{ work 2; kill -s STOP 3; }"), status: 0 }, Cmd::Fg(Some(t("1"))), Cmd::Jobs, asy(1, 3), Cmd::Kill(Sig::Cont, t("?9")), Cmd::Wait(t("-")), Cmd::Wait(t("work")), Cmd::Wait(t("7"))],
+        // no jobs at all
+        vec![Cmd::Jobs, Cmd::Wait(t("1")), Cmd::Fg(None), Cmd::Bg(Some(t("+"))), Cmd::Kill(Sig::Term, t("%")), Cmd::WaitAll, asy(1, 9), Cmd::Sleep(3), Cmd::Jobs, Cmd::Jobs],
+    ]
+}
+
 fn main() {
     let args = Args::parse();
     let mut rng = Rng::new(args.seed);
-    let mut w = CasesWriter::new(&args, "Yv.C12.Run", 100);
+    let mut w = CasesWriter::new(&args, "Yv.C12.Run", args.scale(45, 100));
 
+    // --- stream S first (its cases are the more expensive ones to evaluate)
+    for plan in script_corpus() {
+        w.count("script:corpus");
+        emit_script(&mut w, &plan, &[]);
+    }
+    let ns = args.scale(220, 4000);
+    let mut srng = rng.fork(0x5c);
+    for k in 0..ns {
+        let mut r = srng.fork(k as u64);
+        let nsteps = 5 + r.below(if args.thorough() { 14 } else { 10 });
+        let gaps = r.chance(1, 3);
+        let plan = plan_script(r.fork(1), nsteps, gaps, &[]);
+        if plan.is_empty() {
+            continue;
+        }
+        emit_script(&mut w, &plan, &[]);
+    }
+
+    // --- stream A
     // corpus: minimised histories that once mattered
-    let corpus: Vec<(Vec<i32>, Vec<Op>)> = vec![
+    let n0 = || String::new();
+    let corpus: Vec<(Vec<i32>, Vec<&str>, Vec<Op>)> = vec![
         (
             vec![10, 11],
+            vec!["+", "-", "1", "2"],
             vec![
-                Op::Insert(10, St::Running),
-                Op::Insert(11, St::Stopped(19)),
+                Op::Insert(10, St::Running, n0()),
+                Op::Insert(11, St::Stopped(19), n0()),
                 Op::Update(11, St::Exited(0)),
-                Op::Insert(11, St::Stopped(19)),
+                Op::Insert(11, St::Stopped(19), n0()),
             ],
         ),
         (
             vec![10, 11, 12],
+            vec!["+", "-", "1", "2", "3", "?"],
             vec![
-                Op::Insert(10, St::Stopped(19)),
-                Op::Insert(11, St::Stopped(20)),
-                Op::Insert(12, St::Running),
+                Op::Insert(10, St::Stopped(19), n0()),
+                Op::Insert(11, St::Stopped(20), n0()),
+                Op::Insert(12, St::Running, n0()),
                 Op::Remove(0),
                 Op::Update(11, St::Running),
                 Op::RemoveFinished,
             ],
         ),
+        // jobs 1, 2, 3; job 1 removed; %2 and %3 keep their meaning; names
+        (
+            vec![10, 11, 12, 13],
+            vec!["1", "2", "3", "4", "+2", "03", "first", "job", "?job", "?one", "last", "?", "", "%", "+", "-", "0"],
+            vec![
+                Op::Insert(10, St::Running, "first job".into()),
+                Op::Insert(11, St::Running, "job 2".into()),
+                Op::Insert(12, St::Running, "last one".into()),
+                Op::Remove(0),
+                Op::Insert(13, St::Stopped(19), "job 3".into()),
+                Op::Remove(1),
+                Op::Remove(2),
+                Op::Remove(0),
+            ],
+        ),
+        // more than six jobs, then a gap in the middle
+        (
+            vec![10, 11, 12, 13, 14, 15, 16, 17, 18],
+            vec!["1", "5", "6", "7", "8", "9", "10", "w", "work 5", "?5"],
+            vec![
+                Op::Insert(10, St::Running, "work 5 0".into()),
+                Op::Insert(11, St::Running, "work 5 1".into()),
+                Op::Insert(12, St::Running, "work 5 2".into()),
+                Op::Insert(13, St::Running, "work 6 3".into()),
+                Op::Insert(14, St::Running, "work 6 4".into()),
+                Op::Insert(15, St::Running, "work 6 5".into()),
+                Op::Insert(16, St::Running, "sleep 5".into()),
+                Op::Insert(17, St::Running, "x".into()),
+                Op::Insert(18, St::Stopped(20), "y".into()),
+                Op::Remove(6),
+                Op::Remove(2),
+                Op::RemoveIdxs(vec![0, 1, 4]),
+            ],
+        ),
     ];
-    for (pids, ops) in &corpus {
-        emit(&mut w, pids, ops);
+    for (pids, ids, ops) in &corpus {
+        let ids: Vec<String> = ids.iter().map(|s| s.to_string()).collect();
+        emit(&mut w, pids, &ids, ops);
     }
 
     if args.thorough() {
         // bounded-exhaustive: every history of length <= 3 over 2 pids, 3 states
         let pids = vec![10, 11];
+        let ids: Vec<String> = ["+", "-", "1", "2", "3", "a", "?b"].iter().map(|s| s.to_string()).collect();
         let mut alphabet = vec![];
-        for p in [10, 11] {
+        for (p, name) in [(10, "ab"), (11, "abc")] {
             for st in [St::Running, St::Stopped(19), St::Exited(0)] {
-                alphabet.push(Op::Insert(p, st));
+                alphabet.push(Op::Insert(p, st, name.to_string()));
                 alphabet.push(Op::Update(p, st));
             }
         }
@@ -331,7 +1201,7 @@ fn main() {
                 let mut ok = true;
                 let ops: Vec<Op> = seq.iter().map(|i| alphabet[*i].clone()).collect();
                 for op in &ops {
-                    if let Op::Insert(p, _) = op {
+                    if let Op::Insert(p, _, _) = op {
                         if let Some(i) = list.find_by_pid(Pid(*p)) {
                             if list[i].state.is_alive() {
                                 ok = false;
@@ -345,7 +1215,7 @@ fn main() {
                     continue;
                 }
                 w.count("exhaustive");
-                emit(&mut w, &pids, &ops);
+                emit(&mut w, &pids, &ids, &ops);
             }
             if seq.len() < 3 {
                 for i in 0..alphabet.len() {
@@ -360,21 +1230,33 @@ fn main() {
     let n = args.scale(600, 12000);
     for k in 0..n {
         let mut r = rng.fork(k as u64);
-        let npids = 2 + r.below(4);
+        // every fourth history: many jobs (numbers beyond 6) and removals
+        let many = k % 4 == 3;
+        let npids = if many { 7 + r.below(4) } else { 2 + r.below(4) };
         let pids: Vec<i32> = (0..npids).map(|i| 10 + i as i32).collect();
         let len = if args.thorough() { 1 + r.below(40) } else { 1 + r.below(24) };
+        let ids = pick_ids(&mut r);
         let mut list = JobList::new();
         let mut ops = vec![];
+        if many {
+            for p in &pids {
+                let op = Op::Insert(*p, random_state(&mut r), r.pick(&NAMES).to_string());
+                apply(&mut list, &op);
+                ops.push(op);
+            }
+        }
         for _ in 0..len {
             let op = random_op(&mut r, &list, &pids);
             apply(&mut list, &op);
             ops.push(op);
         }
-        emit(&mut w, &pids, &ops);
+        emit(&mut w, &pids, &ids, &ops);
     }
     w.finish(
-        "random histories over 2-5 pids (insert only on a vacant or finished pid); \
-         non-trivial = at least two jobs coexisted and at least one was suspended; \
-         distinct = by operation sequence",
+        "stream A: random histories over 2-10 pids (insert only on a vacant or finished pid) with job names \
+         and 8-12 job-ID texts resolved after every operation; non-trivial = at least two jobs coexisted and \
+         at least one was suspended; distinct = by operation sequence.  stream S: scripts of 5-18 commands \
+         chosen from the real state (asynchronous lists, jobs, wait/kill/bg/fg with %N %+ %- %% %name %?name \
+         operands, virtual time); non-trivial = two jobs coexisted and an operand designated a job; distinct = by script",
     );
 }
